@@ -19,11 +19,18 @@
   computes the array-free `fLoop` (simulation, `sepd_eq`) and that the yields of `fLoop` written
   out dump by dump are the rule (loop invariant `Inv`, `fLoop_rule`).
 
-  Full vs partial: the rule holds outside two input families in which the implementation (and
-  hence the mirror) departs from the documented rule; both are recorded as known findings and
-  both have a kernel-checked negation witness below:
-    (a) no event before the first dump, an event inside dump 0, and a *greedy* initial value;
-    (b) no event before the end of the last dump (IndexError even with an initial value).
+  Full statement: `c10_rule` holds for every input for which the rule defines a start value
+  without looking past the last dump, i.e. (an event lies before the end of the last dump) OR (an
+  initial value is given).  Two families in which the implementation used to depart from the rule
+  were repaired in /repo commit d44506c (the initial value is now inserted whenever no event
+  precedes the first dump) and are covered by the theorem; each has a kernel-checked example below:
+    (a) no event before the first dump, an event inside dump 0, and a *greedy* initial value:
+        the initial value now claims dump 0;
+    (b) no event before the end of the last dump, initial value given: every dump carries the
+        initial value (formerly IndexError).
+  Still outside (treated as outside the text, "events after the last dump are ignored"): no event
+  before the end of the last dump and NO initial value; the implementation and the mirror raise
+  IndexError there (`c10_no_value_is_error`).
 -/
 import KatdalModel.Lemmas.CatMain
 open Np Categorical
@@ -109,39 +116,48 @@ theorem sorted_edges (e0 : Int) (es : List Int) (period : Int) (hends : (e0 :: e
   · omega
   · have := h'.1 x hx; omega
 
-/-- **The documented rule (partial: outside the two known-finding families).**
+/-- **The documented rule.**
     For all non-decreasing event times, values, strictly increasing dump end times, transforms,
-    initial values, greedy sets and `allow_repeats`: if (b') some event lies before the end of the
-    last dump and (a') it is not the case that {no event lies before the first dump, the initial
-    value is greedy and an event falls inside dump 0}, then `sensor_to_categorical` succeeds and
-    the per-dump list of the returned container is exactly the rule's. -/
-theorem c10_rule_partial (ts : List Int) (vals : List V) (e0 : Int) (es : List Int) (period : Int)
+    initial values, greedy sets and `allow_repeats`: if some event lies before the end of the last
+    dump or an initial value is given (i.e. a start value exists without looking past the last
+    dump), then `sensor_to_categorical` succeeds and the per-dump list of the returned container
+    is exactly the rule's.  No other restriction: in particular a greedy initial value with an
+    event inside dump 0, and an initial value without any usable event, are covered. -/
+theorem c10_rule (ts : List Int) (vals : List V) (e0 : Int) (es : List Int) (period : Int)
     (tr : Option (V → V)) (init : Option V) (greedyVals : List V) (allowRepeats : Bool)
     (hlen : ts.length = vals.length) (hts : ts.Pairwise (· ≤ ·))
     (hends : (e0 :: es).Pairwise (· < ·)) (hper : 0 < period)
-    (hB : ∃ t ∈ ts, dumpOf (e0 :: es) period t < ((es.length + 1 : Nat) : Int))
-    (hA : ¬ ((∀ t ∈ ts, 0 ≤ dumpOf (e0 :: es) period t) ∧
-              (∃ iv, init = some iv ∧ greedyVals.contains iv = true) ∧
-              (∃ t ∈ ts, dumpOf (e0 :: es) period t = 0))) :
+    (hB : (∃ t ∈ ts, dumpOf (e0 :: es) period t < ((es.length + 1 : Nat) : Int)) ∨ init ≠ none) :
     ∃ c r, sensorToCategorical ts vals (e0 :: es) period tr init greedyVals allowRepeats = .ok c ∧
       rule ts vals (e0 :: es) period tr init greedyVals = some r ∧ c.perDump = r.map some := by
   obtain ⟨c, r, h1, h2, h3⟩ := s2c_main ts vals e0 es period tr init greedyVals allowRepeats hlen hts
-    (sorted_edges e0 es period hends hper) hB hA
+    (sorted_edges e0 es period hends hper) hB
   exact ⟨c, r, h1, h2, h3.perDump⟩
 
-/-- the unguarded statement is false, witness (a): one event inside dump 0, no earlier event,
-    greedy initial value `7`: the rule gives `[7, 1]` (the initial value is in effect at the start
-    of dump 0 and is greedy), the implementation gives `[1, 1]` -/
-theorem c10_rule_full_is_false_greedy_initial :
-    (sensorToCategorical [3] [1] [4, 8] 4 none (some 7) [7] false).map Cat.perDump ≠
-      .ok (((rule [3] [1] [4, 8] 4 none (some 7) [7]).getD []).map some) := by
+/-- former deviation (a), repaired: one event inside dump 0, no earlier event, greedy initial value
+    `7`: the initial value is in effect at the start of dump 0 and is greedy, so it claims dump 0;
+    mirror and rule both give `[7, 1]` (the implementation used to give `[1, 1]`) -/
+theorem c10_greedy_initial_claims_dump0 :
+    (sensorToCategorical [3] [1] [4, 8] 4 none (some 7) [7] false).map Cat.perDump = .ok [some 7, some 1] ∧
+      rule [3] [1] [4, 8] 4 none (some 7) [7] = some [7, 1] := by
   decide
 
-/-- witness (b): the only event lies after the last dump and an initial value is supplied: the
-    rule gives the initial value for every dump, the implementation raises IndexError -/
-theorem c10_rule_full_is_false_no_event :
-    sensorToCategorical [9] [1] [4, 8] 4 none (some 7) [] false = .error .index ∧
+/-- former deviation (b), repaired: the only event lies after the last dump and an initial value
+    is supplied: mirror and rule give the initial value for every dump (formerly IndexError) -/
+theorem c10_initial_value_without_event :
+    (sensorToCategorical [9] [1] [4, 8] 4 none (some 7) [] false).map Cat.perDump = .ok [some 7, some 7] ∧
       rule [9] [1] [4, 8] 4 none (some 7) [] = some [7, 7] := by
+  decide
+
+/-- the hypothesis of `c10_rule` cannot be dropped: with no event before the end of the last dump
+    and NO initial value the call still raises IndexError (`events[0] = 0` on an empty array),
+    also with no events at all; the rule would extrapolate the first event (which lies after the
+    last dump) resp. is undefined.  Treated as outside the text of the property. -/
+theorem c10_no_value_is_error :
+    sensorToCategorical [9] [1] [4, 8] 4 none none [] false = .error .index ∧
+      rule [9] [1] [4, 8] 4 none none [] = some [1, 1] ∧
+    sensorToCategorical ([] : List Int) ([] : List Nat) [4, 8] 4 none none [] false = .error .index ∧
+      rule ([] : List Int) ([] : List Nat) [4, 8] 4 none none [] = none := by
   decide
 
 /-! ### structure of the result -/
@@ -173,20 +189,17 @@ theorem ruleFrom_length {α : Type} (g : α → Bool) (evs : List (Int × α)) :
 
 /-- **The result always covers dumps 0..N-1 with strictly increasing event boundaries** (first
     boundary 0, last boundary N, one value per dump) and is a well-formed container (indices in
-    range, unique values pairwise distinct), under the same hypotheses as `c10_rule_partial`. -/
+    range, unique values pairwise distinct), under the same hypotheses as `c10_rule`. -/
 theorem c10_events_strict (ts : List Int) (vals : List V) (e0 : Int) (es : List Int) (period : Int)
     (tr : Option (V → V)) (init : Option V) (greedyVals : List V) (allowRepeats : Bool)
     (hlen : ts.length = vals.length) (hts : ts.Pairwise (· ≤ ·))
     (hends : (e0 :: es).Pairwise (· < ·)) (hper : 0 < period)
-    (hB : ∃ t ∈ ts, dumpOf (e0 :: es) period t < ((es.length + 1 : Nat) : Int))
-    (hA : ¬ ((∀ t ∈ ts, 0 ≤ dumpOf (e0 :: es) period t) ∧
-              (∃ iv, init = some iv ∧ greedyVals.contains iv = true) ∧
-              (∃ t ∈ ts, dumpOf (e0 :: es) period t = 0))) :
+    (hB : (∃ t ∈ ts, dumpOf (e0 :: es) period t < ((es.length + 1 : Nat) : Int)) ∨ init ≠ none) :
     ∃ c, sensorToCategorical ts vals (e0 :: es) period tr init greedyVals allowRepeats = .ok c ∧
       c.WF ∧ c.ev.head? = some 0 ∧ c.numDumps = es.length + 1 ∧ c.perDump.length = es.length + 1 ∧
       (∀ v ∈ c.perDump, v ≠ none) := by
   obtain ⟨c, r, h1, h2, h3⟩ := s2c_main ts vals e0 es period tr init greedyVals allowRepeats hlen hts
-    (sorted_edges e0 es period hends hper) hB hA
+    (sorted_edges e0 es period hends hper) hB
   obtain ⟨v, Pt, hc, hs, hlt, _⟩ := h3.shape
   have hrlen : r.length = es.length + 1 := by
     simp only [rule] at h2
@@ -218,19 +231,16 @@ theorem c10_events_strict (ts : List Int) (vals : List V) (e0 : Int) (es : List 
   · rw [h3.perDump]; intro x hx; simp only [List.mem_map] at hx; obtain ⟨y, _, rfl⟩ := hx; simp
 
 /-- **No repeated consecutive values unless repeats are allowed**: with `allow_repeats=False`
-    neighbouring events of the result never carry the same value. -/
+    neighbouring events of the result never carry the same value (same hypotheses as `c10_rule`). -/
 theorem c10_no_repeats (ts : List Int) (vals : List V) (e0 : Int) (es : List Int) (period : Int)
     (tr : Option (V → V)) (init : Option V) (greedyVals : List V)
     (hlen : ts.length = vals.length) (hts : ts.Pairwise (· ≤ ·))
     (hends : (e0 :: es).Pairwise (· < ·)) (hper : 0 < period)
-    (hB : ∃ t ∈ ts, dumpOf (e0 :: es) period t < ((es.length + 1 : Nat) : Int))
-    (hA : ¬ ((∀ t ∈ ts, 0 ≤ dumpOf (e0 :: es) period t) ∧
-              (∃ iv, init = some iv ∧ greedyVals.contains iv = true) ∧
-              (∃ t ∈ ts, dumpOf (e0 :: es) period t = 0))) :
+    (hB : (∃ t ∈ ts, dumpOf (e0 :: es) period t < ((es.length + 1 : Nat) : Int)) ∨ init ≠ none) :
     ∃ c, sensorToCategorical ts vals (e0 :: es) period tr init greedyVals false = .ok c ∧
       ∀ i x y, c.values[i]? = some x → c.values[i + 1]? = some y → x ≠ y := by
   obtain ⟨c, r, h1, _, h3⟩ := s2c_main ts vals e0 es period tr init greedyVals false hlen hts
-    (sorted_edges e0 es period hends hper) hB hA
+    (sorted_edges e0 es period hends hper) hB
   obtain ⟨v, Pt, hc, _, _, hrep⟩ := h3.shape
   refine ⟨c, h1, ?_⟩
   intro i x y hx hy
@@ -310,11 +320,29 @@ example : sepd [0, 0, 1, 3, 3, 4, 4, 6, 8] [true, false, false, true, true, fals
 example : (sensorToCategorical [-3, 2, 9, 10, 15] [0, 1, 2, 1, 2] [8, 16, 24] 8 none (some 1) [1, 0] false).map
     Cat.perDump = .ok [some 1, some 1, some 2] := by decide
 example : rule [-3, 2, 9, 10, 15] [0, 1, 2, 1, 2] [8, 16, 24] 8 none (some 1) [1, 0] = some [1, 1, 2] := by decide
--- the hypotheses of c10_rule_partial are satisfiable on that input
-example : (∃ t ∈ [-3, 2, 9, 10, 15], dumpOf [8, 16, 24] 8 t < ((2 + 1 : Nat) : Int)) ∧
-    ¬ ((∀ t ∈ [-3, 2, 9, 10, 15], 0 ≤ dumpOf [8, 16, 24] 8 t) ∧
-       (∃ iv, some 1 = some iv ∧ [1, 0].contains iv = true) ∧
-       (∃ t ∈ [-3, 2, 9, 10, 15], dumpOf [8, 16, 24] 8 t = 0)) := by decide
+-- the hypothesis of c10_rule is satisfiable on that input (left disjunct), and on the two repaired
+-- families: greedy initial value with an event in dump 0 (both disjuncts), no usable event (right only)
+example : (∃ t ∈ [-3, 2, 9, 10, 15], dumpOf [8, 16, 24] 8 t < ((2 + 1 : Nat) : Int)) ∨ (some 1 : Option Nat) ≠ none := by
+  decide
+example : ((∃ t ∈ [3], dumpOf [4, 8] 4 t < ((1 + 1 : Nat) : Int)) ∧ (some 7 : Option Nat) ≠ none) ∧
+    (∀ t ∈ [3], 0 ≤ dumpOf [4, 8] 4 t) ∧ [7].contains 7 = true ∧ (∃ t ∈ [3], dumpOf [4, 8] 4 t = 0) := by decide
+example : ¬ (∃ t ∈ [9], dumpOf [4, 8] 4 t < ((1 + 1 : Nat) : Int)) ∧ (some 7 : Option Nat) ≠ none := by decide
+-- c10_rule instantiated on the two repaired inputs
+example : ∃ c r, sensorToCategorical [3] [1] [4, 8] 4 none (some 7) [7] false = .ok c ∧
+    rule [3] [1] [4, 8] 4 none (some 7) [7] = some r ∧ c.perDump = r.map some :=
+  c10_rule [3] [1] 4 [8] 4 none (some 7) [7] false rfl (by decide) (by decide) (by decide) (Or.inr (by decide))
+example : ∃ c r, sensorToCategorical [9] [1] [4, 8] 4 none (some 7) [] false = .ok c ∧
+    rule [9] [1] [4, 8] 4 none (some 7) [] = some r ∧ c.perDump = r.map some :=
+  c10_rule [9] [1] 4 [8] 4 none (some 7) [] false rfl (by decide) (by decide) (by decide) (Or.inr (by decide))
+-- greedy initial value, event in dump 0 and a later non-greedy event in dump 0: the initial value wins
+example : (sensorToCategorical [1, 3, 6] [1, 2, 3] [4, 8] 4 none (some 7) [7] false).map Cat.perDump =
+    .ok [some 7, some 3] := by decide
+-- non-greedy initial value with an event in dump 0: the event (value at the end of the dump) wins
+example : (sensorToCategorical [3] [1] [4, 8] 4 none (some 7) [] false).map Cat.perDump = .ok [some 1, some 1] := by
+  decide
+-- a prior event takes precedence over the initial value (no insertion)
+example : (sensorToCategorical [-1, 6] [2, 1] [4, 8] 4 none (some 7) [7] false).map Cat.perDump =
+    .ok [some 2, some 1] := by decide
 -- an event exactly on the closing edge belongs to that dump, on the opening edge to "before"
 example : dumpOf [8, 16, 24] 8 8 = 0 ∧ dumpOf [8, 16, 24] 8 0 = -1 ∧ dumpOf [8, 16, 24] 8 9 = 1 ∧
     dumpOf [8, 16, 24] 8 25 = 3 := by decide
